@@ -44,40 +44,34 @@ Print Assumptions C11_lockset_pools.
 (* UP4 (F22): exactly three fields - the plain maps meters, ueAddrToFSEID, fseidToUEAddr - violate the
    discipline while the datapath stays connected; each has a pair of accesses from goroutines that may run
    at the same time, one a write, with no lock in common *)
-(* up4_table = request_fields_of ["UP4"; "counter"; "tunnelPeer"; "internalApp"] tbl; up4_run_table = the same
-   without the rows that only run during re-initialisation; f22_fields = the three maps *)
-Theorem C11_lockset_up4_refuted :
-  bad_fields up4_run_table = ["UP4.fseidToUEAddr"; "UP4.meters"; "UP4.ueAddrToFSEID"]%string /\
-  lockset_ok up4_run_table = false /\
-  forall f, In f f22_fields ->
-    exists a1 a2, In a1 up4_run_table /\ In a2 up4_run_table /\ a_field a1 = f /\ a_field a2 = f /\
-                  (a_rw a1 = W \/ a_rw a2 = W) /\ may_run_concurrently a1 a2 /\
-                  forall l, In l (a_locks a1) -> ~ In l (a_locks a2).
-Proof. exact (conj up4_bad_run up4_refuted). Qed.
-Print Assumptions C11_lockset_up4_refuted.
+(* UP4 (up4_run_table = request_fields_of ["UP4"; "counter"; "tunnelPeer"; "internalApp"] tbl without the rows that
+   only run during re-initialisation): holds in full since the three maps meters, ueAddrToFSEID, fseidToUEAddr are
+   guarded by UP4.sessionStateMu (F22, repaired by 74d87b3) *)
+Theorem C11_lockset_up4 : lockset_ok up4_run_table = true.
+Proof. exact lockset_up4. Qed.
+Print Assumptions C11_lockset_up4.
 
-(* the functions that write them with no lock at all *)
-Theorem C11_up4_unlocked_writers :
-  map (fun f => unlocked_writers f up4_run_table) f22_fields =
-  [["UP4.removeUeAddrAndFSEIDMappings"; "UP4.updateUEAddrAndFSEIDMappings"];
-   ["UP4.configureMeters"; "UP4.resetMeters"];
-   ["UP4.removeUeAddrAndFSEIDMappings"; "UP4.updateUEAddrAndFSEIDMappings"]]%string.
-Proof. exact up4_writers. Qed.
-Print Assumptions C11_up4_unlocked_writers.
+(* every access of those maps outside start-up holds UP4.sessionStateMu (writes: exclusively), and each map has such a write *)
+Theorem C11_up4_session_state_locked :
+  forallb (fun a => mem_s "UP4.sessionStateMu" (a_locks a) || negb (live_phase a)) session_state_rows = true /\
+  forallb (fun f => existsb (fun a => String.eqb (a_field a) f && is_w a && live_phase a) session_state_rows) session_state_fields = true.
+Proof. exact session_state_locked. Qed.
+Print Assumptions C11_up4_session_state_locked.
 
-(* without those three fields (up4_guarded_table) the UP4 plug-in's shared state - tunnel peers, applications,
-   counter and meter-cell pools, connection flag - obeys the discipline *)
-Theorem C11_lockset_up4_partial : lockset_ok up4_guarded_table = true.
-Proof. exact (proj1 up4_partial). Qed.
-Print Assumptions C11_lockset_up4_partial.
-
-(* with the re-initialisation that UP4.tryConnect performs after a lost datapath connection, six more
-   fields are re-created under tryConnectMu only, while request handling reads them without it *)
+(* REFUTED with the re-initialisation that UP4.tryConnect performs after a lost datapath connection: six fields are
+   re-created under tryConnectMu only, while request handling and the digest listener read them without it; each has a
+   pair of accesses that may run at the same time, one a write, with no common lock.  (For UP4.p4client the race
+   detector witnesses it: tools/props/c11.py scenario up4_reconnect, finding F1101.) *)
 Theorem C11_lockset_up4_reconnect_refuted :
   bad_fields up4_table =
-  ["UP4.appMeterCellIDsPool"; "UP4.endMarkerChan"; "UP4.fseidToUEAddr"; "UP4.meters"; "UP4.p4RtTranslator"; "UP4.p4client";
-   "UP4.sessMeterCellIDsPool"; "UP4.ueAddrToFSEID"; "counter.counterIDsPool"]%string.
-Proof. exact up4_bad_all. Qed.
+  ["UP4.appMeterCellIDsPool"; "UP4.endMarkerChan"; "UP4.p4RtTranslator"; "UP4.p4client";
+   "UP4.sessMeterCellIDsPool"; "counter.counterIDsPool"]%string /\
+  lockset_ok up4_table = false /\
+  forall f, In f reconnect_fields ->
+    exists a1 a2, In a1 up4_table /\ In a2 up4_table /\ a_field a1 = f /\ a_field a2 = f /\
+                  (a_rw a1 = W \/ a_rw a2 = W) /\ may_run_concurrently a1 a2 /\
+                  forall l, In l (a_locks a1) -> ~ In l (a_locks a2).
+Proof. exact (conj up4_bad_all up4_reconnect_refuted). Qed.
 Print Assumptions C11_lockset_up4_reconnect_refuted.
 
 (* ---------------------------------------------------------------- (b) serializability on the BESS datapath *)
@@ -113,7 +107,7 @@ Print Assumptions C11_batch_interleavings.
    rules) address different slots, provided their PDR match keys differ *)
 Theorem C11_sessions_disjoint : forall burst s1 s2 ps1 fs1 qs1 ps2 fs2 qs2,
   s1 <> s2 -> owned_by s1 fs1 qs1 -> owned_by s2 fs2 qs2 -> keys_disjoint (pdr_cmds ps1) (pdr_cmds ps2) ->
-  keys_disjoint (session_cmds burst ps1 fs1 qs1) (session_cmds burst ps2 fs2 qs2).
+  keys_disjoint (rule_cmds burst ps1 fs1 qs1) (rule_cmds burst ps2 fs2 qs2).
 Proof. exact sessions_disjoint. Qed.
 Print Assumptions C11_sessions_disjoint.
 
@@ -141,9 +135,10 @@ Proof.
 Qed.
 Print Assumptions C11_ippool_renaming.
 
-(* TEID generator: in every state - hence at every point of every interleaving of the atomic methods -
-   an identifier handed out was free, is non-zero, and is in use afterwards *)
-Theorem C11_teid_fresh : forall g id g', allocate g = AOk id g' ->
+(* TEID generator: at every point of every interleaving of the atomic methods an identifier handed out was
+   free, is non-zero, and is in use afterwards (uniqueness among live users for all histories is C07's) *)
+Theorem C11_teid_fresh : forall (threads : list (list Fteid.op)) sched g id g', merge threads sched ->
+  g = fst (Fteid.run new_gen sched) -> allocate g = AOk id g' ->
   is_allocated id g = false /\ is_allocated id g' = true /\ (1 <= id)%N.
 Proof. exact teid_fresh. Qed.
 Print Assumptions C11_teid_fresh.
@@ -182,8 +177,9 @@ Proof. exact est_owned. Qed.
 Print Assumptions C11_establishment_owned.
 
 (* ---------------------------------------------------------------- non-vacuity *)
-Example C11_tables_nonvacuous : has_conflict pool_table = true /\ has_conflict up4_guarded_table = true.
-Proof. split; [exact (proj1 pools_nonvacuous)|exact (proj2 (proj2 up4_partial))]. Qed.
+Example C11_tables_nonvacuous :
+  has_conflict pool_table = true /\ has_conflict up4_run_table = true /\ has_conflict session_state_rows = true.
+Proof. split; [exact (proj1 pools_nonvacuous)|exact (proj2 up4_nonvacuous)]. Qed.
 
 (* two sessions (local SEIDs 5 and 6, FAR 1 each, different UE addresses): their commands are disjoint,
    an interleaving of them is accepted by the checker and gives the serial tables *)
